@@ -19,6 +19,28 @@ TEXTS = [
 ]
 TEXTS += ["select 1 from t where a = 2\n", "select 1 from t where a = 2\n", TEXTS[0]]
 N_SOURCES = len(TEXTS)
+TEXTS += ["-- file backed\nselect a, b\nfrom t;\n", "<root><a x='1'/></root>\n"]
+N_SOURCES = len(TEXTS)
+# 6: TextFileSource over a real file (get_raw reads it lazily); 7: FileSource (raw bytes: code origins have no raw text)
+FILE_SOURCES = {6: ("TextFileSource", "text_source_6.sql"), 7: ("FileSource", "binary_source_7.xml")}
+
+
+def _source_file(i: int):
+    """The file behind a file source: created once per machine under the temp dir (atomic rename), same content every time."""
+    import os
+    import tempfile
+    from pathlib import Path
+
+    d = Path(tempfile.gettempdir()) / f"verif_pyoak_sources_{os.getuid()}"
+    d.mkdir(exist_ok=True)
+    f = d / FILE_SOURCES[i][1]
+    if not f.exists() or f.read_text() != TEXTS[i]:
+        tmp = d / f".{os.getpid()}.{FILE_SOURCES[i][1]}"
+        tmp.write_text(TEXTS[i])
+        os.replace(tmp, f)
+    return f
+
+
 # 0-2: MemoryTextSource, distinct uris; 3/4: TextSource with one uri and different source_type;
 # 5: TextSource with the uri and type of source 0 (another class => another source)
 SOURCE_DESCR = {
@@ -53,6 +75,10 @@ def fresh_source(i: int) -> Any:
     if i in SOURCE_DESCR:
         _, uri, typ = SOURCE_DESCR[i]
         return TextSource(uri, typ, _raw=TEXTS[i])
+    if i in FILE_SOURCES:
+        from pyoak.origin import FileSource, TextFileSource
+
+        return (TextFileSource if i == 6 else FileSource)(_source_file(i))
     return MemoryTextSource(TEXTS[i], source_uri=f"mem://verif/{i}")
 
 
@@ -84,10 +110,18 @@ def build_origin(spec: tuple, src=None) -> Any:
     if k == "code":
         _, s, a, b = spec
         t = TEXTS[s]
+        if (a + b) % 2:
+            from pyoak.origin import get_code_range  # the helper spelling of the same range
+
+            return CodeOrigin(source(s), get_code_range(*point_for(t, a), *point_for(t, b)))
         return CodeOrigin(source(s), CodeRange(CodePoint(*point_for(t, a)), CodePoint(*point_for(t, b))))
     if k == "gen":
         return GeneratedCodeOrigin(source(spec[1]))
     if k == "xml":
+        if len(spec[2]) % 2:
+            from pyoak.origin import get_xml_origin
+
+            return get_xml_origin(source(spec[1]), spec[2])
         return XMLFileOrigin(source(spec[1]), XMLPath(spec[2]))
     if k == "multi":
         return merge_origins(*[build_origin(m) for m in spec[1]])
@@ -138,6 +172,8 @@ def canon_spec(spec: tuple) -> tuple:
 def _canon_src_idx(i: int) -> tuple:
     if i in SOURCE_DESCR:
         return SOURCE_DESCR[i]
+    if i in FILE_SOURCES:
+        return (FILE_SOURCES[i][0], _source_file(i).as_posix(), "File")
     return ("MemoryTextSource", f"mem://verif/{i}", "<memory>")
 
 
@@ -193,3 +229,10 @@ def canon_real_full(o: Any) -> tuple:
             canon_position(o.position),
         )
     return canon_real(o)
+
+
+def raw_slice(s: int, a: int, b: int):
+    """what CodeOrigin.get_raw() must return: the exact slice of the source *text*; a source without text has none"""
+    if FILE_SOURCES.get(s, ("",))[0] == "FileSource":
+        return None
+    return TEXTS[s][a:b]
